@@ -487,7 +487,7 @@ func TestC14EnumStalledReaders(t *testing.T) {
 	}
 	probe.c.Feed(model.Frame(key, model.Header{Version: 0xc1, Type: 1, Seq: 1, Session: 9999}, model.AuthenStart{Action: 1, Priv: 1, AType: 2, Service: 1, User: b("alice"), Port: b("tty0"), RemAddr: b("r"), Data: b("pw-alpha")}.Encode()))
 	answered := false
-	for k := 0; k < 1500; k++ { // up to 3 s; a login at work factor 4 takes a millisecond
+	for k := 0; k < 7500; k++ { // up to 15 s; a login at work factor 4 takes a millisecond
 		if out, _ := probe.c.Written(); len(out) > 0 {
 			answered = true
 			break
@@ -502,7 +502,7 @@ func TestC14EnumStalledReaders(t *testing.T) {
 			_ = env.stop()
 			violation(t, "C14", "availability", "C14:server-stopped-serving", cse, "%d clients logged in and do not read their replies; the login of a well-behaved client that came afterwards is not answered, and connection goroutines are parked inside the server, not on anything the harness owns:\n%s", stalled, parked)
 		}
-		t.Fatalf("HARNESS-BUG/INCONCLUSIVE: the probe login was not answered within 3 s and no connection goroutine is parked inside the server")
+		t.Fatalf("HARNESS-BUG/INCONCLUSIVE: the probe login was not answered within 15 s and no connection goroutine is parked inside the server")
 	}
 	for _, d := range held {
 		d.c.BlockWrites(false)
